@@ -169,7 +169,7 @@ def run_driver(driver, requests, timeout=1200):
     data = '\n'.join(json.dumps(r, ensure_ascii=True) for r in requests) + '\n'
     p = subprocess.run(['lake', 'env', 'lean', '--run', driver], cwd=LEAN, input=data, capture_output=True,
                        text=True, timeout=timeout)
-    lines = [l for l in p.stdout.splitlines() if l.strip()]
+    lines = [l for l in p.stdout.split('\n') if l.strip()]    # not splitlines(): U+0085/U+2028 are not line ends here
     if p.returncode != 0 or len(lines) != len(requests):
         raise Infra(f'driver {driver}: rc={p.returncode} got {len(lines)}/{len(requests)} lines; '
                     f'stderr: {p.stderr[-1500:]} stdout tail: {p.stdout[-500:]}')
